@@ -1,10 +1,16 @@
 import HeartwoodModel.Model.Gossip
+import HeartwoodModel.Lemmas.GossipStore
 /-!
 # C10 — Gossip is authenticated, fresh and never echoed back
 
 Theorems about `Model/Gossip.lean` (the model of `Service::handle_announcement`, `Service::relay`,
 `gossip::Store::announced`, the gossip tick and the `Subscribe` replay).
 
+* `GossipStoreUnique` — at most one row per `(node, kind, repo)` — is an inductive invariant of the model
+  (`init_storeUnique`, `step_storeUnique` for every operation incl. the prune task and `initialize`,
+  `stateAt_storeUnique`); with it rowids are stable (`step_rowid_stable`) and the theorems below are stated
+  per announcement identity `(announcer, kind, repo, timestamp)`; the `…_per_row` versions (stated with the
+  row `find?` returns / the rowid, for *every* state) are kept.
 * `stored_is_fresh_and_authentic` — for **every** state and operation: a gossip-store row of another node
   that was not there before the step exists only because the step delivered exactly that announcement
   from a connected peer with a valid signature, a non-zero timestamp at most `MAX_TIME_DELTA` ahead of the
@@ -24,8 +30,10 @@ Theorems about `Model/Gossip.lean` (the model of `Service::handle_announcement`,
   re-stored announcement gets another rowid). What holds: `relay_skips_recorded` (`Service::relay` never
   writes to a peer recorded in `relayed_by` for that row), `accepted_delivery_recorded` (a delivery that
   stores the announcement records the deliverer under the row's id), `relayedBy_monotone` (records are
-  never dropped) — together `never_echoed_partial`: over any run, a peer whose delivery was stored in row
-  `k` is never sent by relay what row `k` holds, then or later.
+  never dropped) — together `never_echoed_partial_per_row` (over any run, a peer whose delivery was stored in
+  row `k` is never sent by relay what row `k` holds, then or later) and, with `GossipStoreUnique`,
+  `never_echoed_partial`: if peer `p`'s delivery of announcement `a` was stored and `a` has stayed stored
+  since (not pruned, not replaced), no later relay writes `a` to `p`.
 
 Reading fixed: "relayed" = `Service::relay` (immediately or on the gossip tick). The answer to an explicit
 `Subscribe` request may contain announcements the subscriber once delivered (only its own are skipped).
@@ -405,7 +413,7 @@ theorem wake_own (s : State) : OwnOrOld s.rows (wake s).1.rows := by
 /-- **C10, authenticity and freshness (store).** For every state and every operation: a row of another
 node in the store after the step either has the id of a row that was there before, or the operation is
 the delivery of exactly that announcement and the delivery satisfies `Accepted`. -/
-theorem stored_is_fresh_and_authentic (s : State) (op : Op) (row : Row)
+theorem stored_is_fresh_and_authentic_per_row (s : State) (op : Op) (row : Row)
     (hrow : row ∈ (step s op).1.rows) (hforeign : row.id.node ≠ 0) :
     (∃ r0 ∈ s.rows, r0.id = row.id) ∨
     (∃ p a, op = .recv p a ∧ a.id = row.id ∧ Accepted s p a) := by
@@ -488,7 +496,7 @@ def finalState (s : State) : List Op → State
 /-- **C10 over runs.** Starting from a store without rows of other nodes (e.g. `init`), after any sequence
 of operations every row of another node was delivered by some operation of the run which satisfied
 `Accepted` in the state it met. -/
-theorem stored_rows_were_accepted (s : State) (ops : List Op)
+theorem stored_rows_were_accepted_per_row (s : State) (ops : List Op)
     (h0 : ∀ r ∈ s.rows, r.id.node = 0) :
     ∀ row ∈ (finalState s ops).rows, row.id.node ≠ 0 →
       ∃ i p a, ops[i]? = some (.recv p a) ∧ a.id = row.id ∧ Accepted (stateAt s ops i) p a := by
@@ -511,7 +519,7 @@ theorem stored_rows_were_accepted (s : State) (ops : List Op)
     let P' : AnnId → Prop := fun id => P id ∨ ∃ p a, op = .recv p a ∧ a.id = id ∧ Accepted s p a
     have hP' : ∀ r ∈ (step s op).1.rows, r.id.node ≠ 0 → P' r.id := by
       intro r hr hn
-      rcases stored_is_fresh_and_authentic s op r hr hn with ⟨r0, hr0, he⟩ | h
+      rcases stored_is_fresh_and_authentic_per_row s op r hr hn with ⟨r0, hr0, he⟩ | h
       · exact Or.inl (he ▸ hP r0 hr0 (he ▸ hn))
       · exact Or.inr h
     rcases ih (step s op).1 P' hP' row hrow hf with (h | ⟨p, a, hop, ha, hA⟩) | ⟨i, p, a, hi, ha, hA⟩
@@ -1009,7 +1017,7 @@ of an announcement by peer `p` has been stored in row `k` (step `i`), every anno
 any later step `j` is the content of a row other than `k` — `p` is never sent, by relay, what is stored in
 the row its delivery filled, however that row is updated afterwards. Not covered (and false, see
 `never_echoed_counterexample`): deliveries that found the announcement already stored. -/
-theorem never_echoed_partial (s : State) (ops : List Op) (i j p k : Nat) (a : Ann) (op : Op)
+theorem never_echoed_partial_per_row (s : State) (ops : List Op) (i j p k : Nat) (a : Ann) (op : Op)
     (hij : i < j) (hi : ops[i]? = some (.recv p a))
     (hs : hasSession (stateAt s ops i) p = true) (hp : precheck (stateAt s ops i) a = .accept)
     (hk : (announced (stateAt s ops i).rows a.id a.inv).2 = some k)
@@ -1026,6 +1034,389 @@ theorem never_echoed_partial (s : State) (ops : List Op) (i j p k : Nat) (a : An
   have h2 := relayedBy_mono_run s ops (i + 1) j (by omega) _ h1
   rw [hrk, hpw]
   exact relayedBy_monotone _ op _ h2
+
+/-! ## The gossip store has a unique key; the theorems per announcement identity -/
+
+/-- **`GossipStoreUnique`**: at most one row per `(node, kind, repo)` — the `UNIQUE` constraint of the
+`announcements` table, here an inductive invariant of the model (`init_storeUnique`, `step_storeUnique`). -/
+def GossipStoreUnique (s : State) : Prop := UniqueKeys s.rows
+
+theorem init_storeUnique (t0 : Nat) (b : Bool) : GossipStoreUnique (init t0 b) := by
+  simp [GossipStoreUnique, UniqueKeys, init]
+
+theorem announceInventory_grow (s : State) : GrowOps s.rows (announceInventory s).1.rows := by
+  unfold announceInventory
+  split
+  · exact GrowOps.refl _
+  · exact GrowOps.upsert _ _ (GrowOps.refl _)
+
+theorem refreshInventory_grow (s : State) (t : Nat) : GrowOps s.rows (refreshInventory s t).1.rows := by
+  unfold refreshInventory
+  exact announceInventory_grow { s with invTs := t, inv := localInventory s }
+
+theorem addInventory_grow (s : State) (rid : Nat) : GrowOps s.rows (addInventory s rid).1.rows := by
+  unfold addInventory
+  dsimp only
+  split
+  · exact GrowOps.refl _
+  · exact refreshInventory_grow
+      { (timestamp s).1 with routing := (addRoute (timestamp s).1.routing rid 0 (timestamp s).2).1 }
+      (timestamp s).2
+
+theorem removeInventory_grow (s : State) (rid : Nat) : GrowOps s.rows (removeInventory s rid).1.rows := by
+  unfold removeInventory
+  dsimp only
+  split
+  · exact refreshInventory_grow
+      { (timestamp s).1 with routing := (removeRoute (timestamp s).1.routing rid 0).1 } (timestamp s).2
+  · exact GrowOps.refl _
+
+theorem announceRefs_grow (s : State) (r doc : Repo) : GrowOps s.rows (announceRefs s r doc).1.rows := by
+  unfold announceRefs
+  dsimp only
+  split
+  · exact GrowOps.refl _
+  · exact GrowOps.upsert _ _ (GrowOps.refl _)
+
+theorem fetched_grow (s : State) (rid p : Nat) (clone upd : Bool) :
+    GrowOps s.rows (fetched s rid p clone upd).1.rows := by
+  unfold fetched
+  split
+  · exact GrowOps.refl _
+  · split
+    · exact GrowOps.refl _
+    · rename_i r _
+      dsimp only
+      have h1 : GrowOps s.rows
+          (fetchedInventory { s with routing := (addRoute s.routing rid p s.clock).1 } r clone).1.rows := by
+        unfold fetchedInventory
+        split
+        · exact addInventory_grow { s with routing := (addRoute s.routing rid p s.clock).1 } r.rid
+        · exact GrowOps.refl _
+      refine h1.trans ?_
+      unfold fetchedRefs
+      split
+      · exact announceRefs_grow _ _ _
+      · exact GrowOps.refl _
+
+theorem initRepo_grow (db : List (Nat × Nat × Nat)) (acc : InitAcc) (r : Repo) :
+    GrowOps acc.s.rows (initRepo db acc r).s.rows := by
+  unfold initRepo
+  split
+  · exact GrowOps.refl _
+  · split
+    · exact GrowOps.refl _
+    · dsimp only
+      split
+      · exact GrowOps.refl _
+      · split
+        · exact GrowOps.refl _
+        · exact GrowOps.upsert _ _ (GrowOps.refl _)
+
+theorem initFold_grow (db : List (Nat × Nat × Nat)) (repos : List Repo) (acc : InitAcc) :
+    GrowOps acc.s.rows (repos.foldl (initRepo db) acc).s.rows := by
+  induction repos generalizing acc with
+  | nil => exact GrowOps.refl _
+  | cons r rs ih => exact (initRepo_grow db acc r).trans (ih _)
+
+theorem restart_grow (s : State) : GrowOps s.rows (restart s).1.rows := by
+  unfold restart
+  dsimp only [timestamp]
+  exact initFold_grow s.seedsDb s.repos { s := s }
+
+theorem setRelay_core (rows : List Row) (k : Nat) : (setRelay rows k).map core = rows.map core := by
+  unfold setRelay
+  rw [List.map_map]
+  apply List.map_congr_left
+  intro r _
+  simp only [Function.comp]
+  split <;> rfl
+
+theorem handleAnn_grow {s s' : State} {p : Nat} {a : Ann} {k : Option Nat}
+    (h : handleAnn s p a = .ok (s', k)) : GrowOps s.rows s'.rows := by
+  rcases handleAnn_ok h with ⟨hr, _, _, _⟩ | ⟨_, _, _, hr, _, _⟩
+  · exact GrowOps.of_eq hr
+  · rw [hr]; exact GrowOps.upsert _ _ (GrowOps.refl _)
+
+theorem recv_grow (s : State) (p : Nat) (a : Ann) : GrowOps s.rows (recv s p a).1.rows := by
+  by_cases hs : hasSession s p = true
+  case neg => simp only [recv, hs]; exact GrowOps.refl _
+  cases h : handleAnn s p a with
+  | error r => simp only [recv, hs, h]; exact GrowOps.refl _
+  | ok res =>
+    obtain ⟨s1, k⟩ := res
+    have g1 := handleAnn_grow h
+    cases k with
+    | none => simp only [recv, hs, h]; exact g1
+    | some k =>
+      rw [recv_eq_of_some hs h]
+      split
+      · exact g1
+      · split
+        · exact GrowOps.flags g1 (setRelay_core s1.rows k)
+        · exact g1
+
+theorem gossipTask_grow (s : State) : GrowOps s.rows (gossipTask s).1.rows := by
+  unfold gossipTask
+  split
+  · refine GrowOps.flags (GrowOps.refl _) ?_
+    dsimp only [relayAnnouncements]
+    rw [List.map_map]
+    apply List.map_congr_left
+    intro r _
+    rfl
+  · exact GrowOps.refl _
+
+theorem announceTask_grow (s : State) : GrowOps s.rows (announceTask s).1.rows := by
+  unfold announceTask
+  split
+  · exact announceInventory_grow s
+  · exact GrowOps.refl _
+
+theorem pruneTask_sublist (s : State) : (pruneTask s).rows.Sublist s.rows := by
+  unfold pruneTask
+  split
+  · exact List.filter_sublist
+  · exact List.Sublist.refl _
+
+/-- Every step touches the table by upserts and flag updates, followed at most by the prune filter. -/
+theorem step_store (s : State) (op : Op) :
+    ∃ mid, GrowOps s.rows mid ∧ (step s op).1.rows.Sublist mid := by
+  have plain : GrowOps s.rows (step s op).1.rows → ∃ mid, GrowOps s.rows mid ∧ (step s op).1.rows.Sublist mid :=
+    fun h => ⟨_, h, List.Sublist.refl _⟩
+  cases op with
+  | connect p => exact plain (GrowOps.refl _)
+  | disconnect p => exact plain (GrowOps.refl _)
+  | recv p a => exact plain (recv_grow s p a)
+  | subscribe p sb =>
+    refine plain ?_
+    simp only [step, subscribe]
+    split <;> exact GrowOps.refl _
+  | elapse dt =>
+    simp only [step, wake]
+    refine ⟨(announceTask (gossipTask { s with clock := s.clock + dt }).1).1.rows, ?_, pruneTask_sublist _⟩
+    exact (gossipTask_grow { s with clock := s.clock + dt }).trans (announceTask_grow _)
+  | tick now =>
+    refine plain ?_
+    simp only [step]
+    split <;> exact GrowOps.refl _
+  | setClock t => exact plain (GrowOps.refl _)
+  | announceRefs rid =>
+    refine plain ?_
+    simp only [step, cmdAnnounceRefs]
+    split
+    · exact GrowOps.refl _
+    · exact announceRefs_grow _ _ _
+  | addInventory rid => exact plain (addInventory_grow s rid)
+  | announceInventory => exact plain (announceInventory_grow s)
+  | seed rid => exact plain (GrowOps.refl _)
+  | unseed rid =>
+    refine plain ?_
+    simp only [step, unseed]
+    split
+    · exact removeInventory_grow { s with seeded := s.seeded.filter (· != rid) } rid
+    · exact GrowOps.refl _
+  | fetched rid p clone upd => exact plain (fetched_grow s rid p clone upd)
+  | restart => exact plain (restart_grow s)
+  | setRepo r => exact plain (GrowOps.refl _)
+  | knowNode nid ts =>
+    refine plain ?_
+    simp only [step]
+    split <;> exact GrowOps.refl _
+
+/-- **`GossipStoreUnique` is preserved by every operation** (deliveries, own announcements, `initialize`,
+the gossip / announce / prune tasks, …). -/
+theorem step_storeUnique (s : State) (op : Op) (hu : GossipStoreUnique s) :
+    GossipStoreUnique (step s op).1 := by
+  obtain ⟨mid, hg, hsub⟩ := step_store s op
+  exact (hg.unique hu).sublist hsub
+
+theorem stateAt_storeUnique (s : State) (ops : List Op) (hu : GossipStoreUnique s) (i : Nat) :
+    GossipStoreUnique (stateAt s ops i) := by
+  induction ops generalizing s i with
+  | nil => exact hu
+  | cons o os ih =>
+    cases i with
+    | zero => cases os <;> exact hu
+    | succ i => simp only [stateAt]; exact ih _ (step_storeUnique s o hu) i
+
+/-- **Rowid stability.** While the key is unique, a row that carries the same announcement identity before
+and after a step has the same rowid. -/
+theorem step_rowid_stable (s : State) (op : Op) (hu : GossipStoreUnique s) {r r' : Row}
+    (hr : r ∈ s.rows) (hr' : r' ∈ (step s op).1.rows) (hid : r'.id = r.id) : r'.rowid = r.rowid := by
+  obtain ⟨mid, hg, hsub⟩ := step_store s op
+  exact stable_of_origin hu hg.grow.origin hr (hsub.subset hr') hid
+
+/-- The acceptance conditions of the property statement, per announcement identity: strictly newer than
+**every** stored announcement of the same node, kind and repository. -/
+def AcceptedFresh (s : State) (p : Nat) (a : Ann) : Prop :=
+  hasSession s p = true ∧ a.sigOk = true ∧ a.id.node ≠ 0 ∧ a.id.ts ≠ 0 ∧
+  a.id.ts ≤ s.clock + MAX_TIME_DELTA ∧
+  (a.id.kind ≠ .node → (lookup a.id.node s.addrBook).isSome = true) ∧
+  (∀ r0 ∈ s.rows, sameKey r0.id a.id = true → r0.id.ts < a.id.ts)
+
+theorem Accepted.fresh {s : State} {p : Nat} {a : Ann} (hu : GossipStoreUnique s) (h : Accepted s p a) :
+    AcceptedFresh s p a := by
+  obtain ⟨h1, h2, h3, h4, h5, h6, h7⟩ := h
+  exact ⟨h1, h2, h3, h4, h5, h6, fun r0 hr0 hk => h7 r0 (hu.find_eq hr0 hk)⟩
+
+/-- **C10, authenticity and freshness (store), per announcement identity.** In every state whose store has
+unique keys (every reachable state: `stateAt_storeUnique`), for every operation: an announcement of another
+node that is stored after the step was stored before, or this step delivers exactly it — from a connected
+peer, with a valid signature, a non-zero timestamp at most one hour ahead, a known announcer (inventory /
+refs), and strictly newer than every stored announcement of the same node, kind and repository. -/
+theorem stored_is_fresh_and_authentic (s : State) (op : Op) (hu : GossipStoreUnique s) (row : Row)
+    (hrow : row ∈ (step s op).1.rows) (hforeign : row.id.node ≠ 0) :
+    (∃ r0 ∈ s.rows, r0.id = row.id) ∨
+    (∃ p a, op = .recv p a ∧ a.id = row.id ∧ AcceptedFresh s p a) := by
+  rcases stored_is_fresh_and_authentic_per_row s op row hrow hforeign with h | ⟨p, a, h1, h2, hA⟩
+  · exact Or.inl h
+  · exact Or.inr ⟨p, a, h1, h2, hA.fresh hu⟩
+
+/-- **C10 over runs, per announcement identity.** From any state with unique keys and no rows of other
+nodes (e.g. `init`), after any sequence of operations every stored announcement of another node was
+delivered by an operation of the run that satisfied `AcceptedFresh` in the state it met. -/
+theorem stored_rows_were_accepted (s : State) (ops : List Op) (hu : GossipStoreUnique s)
+    (h0 : ∀ r ∈ s.rows, r.id.node = 0) :
+    ∀ row ∈ (finalState s ops).rows, row.id.node ≠ 0 →
+      ∃ i p a, ops[i]? = some (.recv p a) ∧ a.id = row.id ∧ AcceptedFresh (stateAt s ops i) p a := by
+  intro row hrow hf
+  obtain ⟨i, p, a, h1, h2, hA⟩ := stored_rows_were_accepted_per_row s ops h0 row hrow hf
+  exact ⟨i, p, a, h1, h2, hA.fresh (stateAt_storeUnique s ops hu i)⟩
+
+/-- Rows of `recv` once the store accepted the announcement: the upserted table, up to flags. -/
+theorem recv_rows_core_of_accept {s : State} {p : Nat} {a : Ann} {k : Nat}
+    (hs : hasSession s p = true) (hp : precheck s a = .accept)
+    (hk : (announced s.rows a.id a.inv).2 = some k) :
+    (recv s p a).1.rows.map core = (announced s.rows a.id a.inv).1.map core := by
+  have h := handleAnn_accept (p := p) hp hk
+  generalize hres : handleKind (storedState s p a k) a (relayDecision s a k) = res at h
+  obtain ⟨s1, ko⟩ := res
+  have hs1 : s1.rows = (announced s.rows a.id a.inv).1 := by
+    have : s1 = (handleKind (storedState s p a k) a (relayDecision s a k)).1 := by rw [hres]
+    rw [this]; simp [storedState]
+  cases ko with
+  | none => simp [recv, hs, h, hs1]
+  | some k1 =>
+    rw [recv_eq_of_some hs h]
+    split
+    · rw [hs1]
+    · split
+      · simp only [setRelay_core, hs1]
+      · rw [hs1]
+
+theorem stateAt_past_end (s : State) (ops : List Op) (m : Nat) (h : ops[m]? = none) :
+    stateAt s ops (m + 1) = stateAt s ops m := by
+  induction ops generalizing s m with
+  | nil => rfl
+  | cons o os ih =>
+    cases m with
+    | zero => simp at h
+    | succ m =>
+      simp only [List.getElem?_cons_succ] at h
+      simp only [stateAt]
+      exact ih _ m h
+
+/-- While announcement `id` stays stored, the row that holds it keeps its rowid. -/
+theorem rowid_kept_while_stored (s : State) (ops : List Op) (hu : GossipStoreUnique s) (id : AnnId)
+    (k lo : Nat) (hlo : ∃ row ∈ (stateAt s ops lo).rows, row.id = id ∧ row.rowid = k) :
+    ∀ m, lo ≤ m → (∀ n, lo < n → n ≤ m → ∃ row ∈ (stateAt s ops n).rows, row.id = id) →
+      ∀ row ∈ (stateAt s ops m).rows, row.id = id → row.rowid = k := by
+  intro m
+  induction m with
+  | zero =>
+    intro hle _ row hrow hid
+    have : lo = 0 := by omega
+    subst this
+    obtain ⟨r0, hr0, h1, h2⟩ := hlo
+    have := (stateAt_storeUnique s ops hu 0).eq_of_sameKey hrow hr0 (sameKey_of_eq (hid.trans h1.symm))
+    rw [this]; exact h2
+  | succ m ih =>
+    intro hle hkeep row hrow hid
+    by_cases hlm : lo = m + 1
+    · subst hlm
+      obtain ⟨r0, hr0, h1, h2⟩ := hlo
+      have := (stateAt_storeUnique s ops hu (m + 1)).eq_of_sameKey hrow hr0
+        (sameKey_of_eq (hid.trans h1.symm))
+      rw [this]; exact h2
+    · have hle' : lo ≤ m := by omega
+      -- the row holding `id` in state `m` has rowid `k`
+      have hprev : ∃ r ∈ (stateAt s ops m).rows, r.id = id ∧ r.rowid = k := by
+        by_cases hm : lo = m
+        · subst hm; exact hlo
+        · obtain ⟨r, hr, hrid⟩ := hkeep m (by omega) (by omega)
+          exact ⟨r, hr, hrid, ih hle' (fun n h1 h2 => hkeep n h1 (by omega)) r hr hrid⟩
+      obtain ⟨r, hr, hrid, hrk⟩ := hprev
+      cases hop : ops[m]? with
+      | none =>
+        -- past the end of the run the state no longer changes
+        have hst := stateAt_past_end s ops m hop
+        rw [hst] at hrow
+        have := (stateAt_storeUnique s ops hu m).eq_of_sameKey hrow hr (sameKey_of_eq (hid.trans hrid.symm))
+        rw [this]; exact hrk
+      | some op =>
+        rw [stateAt_succ s ops m op hop] at hrow
+        have := step_rowid_stable (stateAt s ops m) op (stateAt_storeUnique s ops hu m) hr hrow
+          (hid.trans hrid.symm)
+        rw [this]; exact hrk
+
+/-- **C10, "never echoed back", per announcement identity (`_partial`).** In any run from a state with
+unique keys (e.g. `init`): if peer `p`'s delivery of announcement `a` was stored at step `i` (`a` became the
+row of its key) and `a` has stayed stored since (its row was neither pruned nor replaced by a newer
+announcement), then no later step relays `a` to `p`. Not covered, and false
+(`never_echoed_counterexample`, `never_echoed_ignored_delivery_counterexample`,
+`never_echoed_after_prune_counterexample`): deliveries that did not store the announcement, and rows that
+were pruned in between. -/
+theorem never_echoed_partial (s : State) (ops : List Op) (hu : GossipStoreUnique s)
+    (i j p k : Nat) (a : Ann) (op : Op)
+    (hij : i < j) (hi : ops[i]? = some (.recv p a))
+    (hs : hasSession (stateAt s ops i) p = true) (hp : precheck (stateAt s ops i) a = .accept)
+    (hk : (announced (stateAt s ops i).rows a.id a.inv).2 = some k)
+    (hkeep : ∀ n, i + 1 < n → n ≤ j → ∃ row ∈ (stateAt s ops n).rows, row.id = a.id)
+    (hj : ops[j]? = some op) (w : Write) (hw : w ∈ (step (stateAt s ops j) op).2.writes)
+    (ho : w.origin = .relay) (hpw : w.peer = p) : w.id ≠ a.id := by
+  intro hwid
+  -- the row that holds `a` right after the delivery has rowid `k`
+  have hbase : ∃ row ∈ (stateAt s ops (i + 1)).rows, row.id = a.id ∧ row.rowid = k := by
+    rw [stateAt_succ s ops i _ hi]
+    obtain ⟨r, hr, hrk, hrid⟩ := announced_some_row hk
+    have hc := recv_rows_core_of_accept hs hp hk
+    obtain ⟨r1, hr1, h1, h2⟩ := mem_of_core hc.symm hr
+    exact ⟨r1, hr1, h2.trans hrid, h1.trans hrk⟩
+  have hrowid := rowid_kept_while_stored s ops hu a.id k (i + 1) hbase j (by omega) hkeep
+  -- the relayed row
+  obtain ⟨r, hr, hid, hnot⟩ := relay_skips_recorded (stateAt s ops j) op w hw ho
+  have hrk : r.rowid = k := by
+    rcases List.mem_append.mp hr with h | h
+    · exact hrowid r h (hid.trans hwid)
+    · -- a row of the state after step `j`: same rowid as the row holding `a` before it
+      have hjs : ∃ r0 ∈ (stateAt s ops j).rows, r0.id = a.id := by
+        by_cases hji : j = i + 1
+        · subst hji; obtain ⟨r0, h0, h1, _⟩ := hbase; exact ⟨r0, h0, h1⟩
+        · exact hkeep j (by omega) (Nat.le_refl _)
+      obtain ⟨r0, hr0, hr0id⟩ := hjs
+      have := step_rowid_stable (stateAt s ops j) op (stateAt_storeUnique s ops hu j) hr0 h
+        ((hid.trans hwid).trans hr0id.symm)
+      rw [this]; exact hrowid r0 hr0 hr0id
+  apply hnot
+  have h1 : (k, p) ∈ (stateAt s ops (i + 1)).relayedBy := by
+    rw [stateAt_succ s ops i _ hi]
+    exact accepted_delivery_recorded _ p a hs hp hk
+  have h2 := relayedBy_mono_run s ops (i + 1) j (by omega) _ h1
+  rw [hrk, hpw]
+  exact relayedBy_monotone _ op _ h2
+
+/-- Non-vacuity of `never_echoed_partial`: peer 1's delivery is stored, stays stored, and the gossip tick
+relays it to peer 2 only. -/
+example :
+    let s := finalState (init 1000000 true)
+      [.connect 1, .connect 2, .knowNode 3 999990,
+       .recv 1 ⟨⟨3, .inv, 0, 1000005⟩, true, [1], false, false⟩]
+    (GossipStoreUnique s ∧ (s.rows.map (·.id) = [⟨3, .inv, 0, 1000005⟩])) ∧
+    (step s (.elapse 6000)).2.writes.map (·.peer) = [2] := by
+  refine ⟨⟨?_, by decide⟩, by decide⟩
+  unfold GossipStoreUnique UniqueKeys
+  decide
 
 /-- The full statement — *no relayed announcement is ever written to a peer that delivered it* — is false
 of the current code. Witness: node 3 is known; peer 1 delivers its inventory announcement `X`; peer 2
